@@ -613,6 +613,8 @@ def _finish(world, case, viol, info, nontrivial, peer=None):
     elif world.outcome not in ("ok", "budget"):
         raise common.HarnessError(f"scenario failed: {world.outcome}: {world.error!r}")
     for e in world.loop.exc_log:
+        if "never retrieved" in e["message"]:
+            continue  # log hygiene (an un-retrieved task exception), not something the property forbids
         viol.append({"clause": "unhandled-exception", "subject": f"{case['kind']}:{e['exc_type']}", "detail": f"{e['message']}: {e['exception']}"})
     seen = set()
     out = []
